@@ -10,6 +10,7 @@ import (
 	"math"
 	"math/big"
 	"strings"
+	"unsafe"
 
 	"gorgonia.org/tensor"
 )
@@ -749,6 +750,12 @@ func CompareTensor(want AbsTensor, got tensor.Tensor, mode string) (bool, string
 		w, err := Concretize(want.Dt, want.Data[i])
 		if err != nil {
 			return false, "harness: " + err.Error()
+		}
+		if b, isBool := v.(bool); isBool {
+			// a Go bool must hold 0 or 1; any other byte pattern prints as true but breaks ==, != and !
+			if raw := *(*byte)(unsafe.Pointer(&b)); raw > 1 {
+				return false, fmt.Sprintf("element %d is a bool with the byte pattern %d (not a canonical true/false)", i, raw)
+			}
 		}
 		if !sameValue(v, w, mode) {
 			return false, fmt.Sprintf("element %d is %v, expected %v", i, v, w)
